@@ -11,7 +11,7 @@ Values are hashable tuples:
   ('upd', prev, elems, newv)               prev with the sub-place elems overwritten by newv
   ('mut', prev, fn, bb, idx)               prev, possibly mutated through the &mut borrow taken at (bb, idx)
   ('phi', (v, ...))                        several reaching definitions
-  ('cycle', fn, local)                     loop-carried self reference
+  ('cycle', fn, local, tag, bb, idx, kind) reference to the value of that definition site (loop-carried)
   ('uninit',) ('unknown', why)
 References and dereferences are transparent (&x == x == *x)."""
 import re
@@ -459,7 +459,8 @@ class Program:
         if key in self._val_memo:
             return self._val_memo[key]
         if key in self._in_progress:
-            return ("cycle", fn.path, local)
+            # a reference to the value of this very definition (loop-carried); resolved lazily by consumers
+            return ("cycle", fn.path, local, body.tag, b, i, kind)
         self._in_progress.add(key)
         try:
             blk = body.blocks[b]
